@@ -1,5 +1,6 @@
 import Ark.Proofs.Table
 import Ark.Props.C11
+import Ark.Props.C01World
 import Ark.Proofs.GenBridge
 
 namespace Ark.Props.C01
@@ -32,5 +33,45 @@ theorem table_shape_reachable : type_of% @Ark.Props.C11.shape_reachable := @Ark.
 
 /-- `Extend` re-allocates exactly when the Go code does (regenerated condition) -/
 theorem extend_as_in_source : type_of% @GenBridge.tableExtend_eq := @GenBridge.tableExtend_eq
+
+
+/-! ### World level: the entity index ↔ rows invariant and the frame property (an operation on
+    one entity never changes the components or values of any other entity). -/
+
+/-- a new world satisfies the index ↔ rows invariant -/
+theorem index_inv_init : type_of% @Ark.IdxInv.init := @Ark.IdxInv.init
+
+/-- creating an entity keeps it (the pool hands out an ID that is not indexed) -/
+theorem index_inv_create : type_of% @Ark.IdxInv.placeNew := @Ark.IdxInv.placeNew
+
+/-- moving an entity to another table (add/remove/exchange/set relations) keeps it -/
+theorem index_inv_move : type_of% @Ark.IdxInv.addMove := @Ark.IdxInv.addMove
+
+/-- removing an entity (swap-remove + index fix-up of the swapped row) keeps it -/
+theorem index_inv_remove : type_of% @Ark.IdxInv.removeRowOf := @Ark.IdxInv.removeRowOf
+
+/-- moving all rows of a table (batch relation change, target cleanup) keeps it -/
+theorem index_inv_batch_move : type_of% @Ark.IdxInv.moveEntities := @Ark.IdxInv.moveEntities
+
+/-- batch creation keeps it -/
+theorem index_inv_batch_create : type_of% @Ark.IdxInv.createEntities := @Ark.IdxInv.createEntities
+
+/-- writing component values keeps it -/
+theorem index_inv_write : type_of% @Ark.IdxInv.writeVals := @Ark.IdxInv.writeVals
+
+/-- creating a table keeps it -/
+theorem index_inv_new_table : type_of% @Ark.IdxInv.append_new_table := @Ark.IdxInv.append_new_table
+
+/-- FRAME: moving entity e between tables changes no value and no component set of any other entity -/
+theorem move_frame : type_of% @Ark.Props.C01World.move_frame := @Ark.Props.C01World.move_frame
+
+/-- the moved entity keeps the values of the components it keeps; newly added components read zero -/
+theorem move_keeps_values : type_of% @Ark.Props.C01World.move_keeps_values := @Ark.Props.C01World.move_keeps_values
+
+/-- FRAME: removing an entity changes no other entity -/
+theorem remove_frame : type_of% @Ark.Props.C01World.remove_frame := @Ark.Props.C01World.remove_frame
+
+/-- FRAME: writing values of e changes only those components of e -/
+theorem write_frame : type_of% @Ark.Props.C01World.write_frame := @Ark.Props.C01World.write_frame
 
 end Ark.Props.C01
